@@ -55,6 +55,19 @@ func vhLeafX(t int, v []int, nl int) any {
 		return &vhAnyStruct{A: v[0], N: v[1]}
 	case 7:
 		return map[int]int{1: v[0], 2: v[1]}
+	case 9: // interface-typed elements holding a pointer (or nothing)
+		if nl&1 != 0 {
+			return []any{nil, v[1]}
+		}
+		return []any{ptr(1), v[1]}
+	case 10: // ... holding a slice
+		return []any{[]int{v[0], v[1]}, v[2]} // (slice, scalar)
+	case 11: // ... holding a pointer to a pointer
+		p := ptr(1)
+		if p == nil {
+			return []any{v[0], nil}
+		}
+		return []any{v[0], &p}
 	}
 	return []any{v[0], v[1]}
 }
@@ -97,6 +110,25 @@ func vhRefEqualX(t int, x, y any) (eq, known bool) {
 	case 7:
 		a, b := x.(map[int]int), y.(map[int]int)
 		eq = a[1] == b[1] && a[2] == b[2]
+	case 9:
+		a, b := x.([]any), y.([]any)
+		pa, _ := a[0].(*int)
+		pb, _ := b[0].(*int)
+		eq = vhPtrEq(pa, pb) && a[1] == b[1]
+	case 10:
+		a, b := x.([]any), y.([]any)
+		sa, sb := a[0].([]int), b[0].([]int)
+		eq = sa[0] == sb[0] && sa[1] == sb[1] && a[1] == b[1]
+	case 11:
+		a, b := x.([]any), y.([]any)
+		var pa, pb *int
+		if pp, ok := a[1].(**int); ok {
+			pa = *pp
+		}
+		if pp, ok := b[1].(**int); ok {
+			pb = *pp
+		}
+		eq = a[0] == b[0] && vhPtrEq(pa, pb)
 	default:
 		a, b := x.([]any), y.([]any)
 		eq = a[0] == b[0] && a[1] == b[1]
@@ -166,6 +198,16 @@ func VH_C05_Hidden(p []int) {
 		s := And().Push(a)
 		verifAssert(s.IsEqual(x) != nil, "stack-vs-condition")
 		verifAssert(s.IsEqual(Stack{}) != nil, "stack-vs-zero-stack")
+	case 5: // an element that is a zero Stack / zero alias against a real one
+		real := And().Push(a, "q")
+		for _, z := range []any{Stack{}, vhAliasStack{}, Condition{}} {
+			x, y := Or().Push("l", z), Or().Push("l", real)
+			verifAssert(x.IsEqual(y) != nil, "zero-instance-vs-real")
+			verifAssert(y.IsEqual(x) != nil, "real-vs-zero-instance")
+			cx, cy := Cond("k", Eq, z), Cond("k", Eq, real)
+			verifAssert(cx.IsEqual(cy) != nil, "zero-expression-vs-real")
+			verifAssert(cy.IsEqual(cx) != nil, "real-vs-zero-expression")
+		}
 	case 4: // Conditions differing only in the expression's dynamic type
 		x := Cond("kw", Eq, a)
 		y := Cond("kw", Eq, "txt")
